@@ -115,7 +115,11 @@ def stepExec (E : EvalEnv) (o : Op) (s : St) : Option St :=
   | .push d, st => some { s with stack := d :: st }
   | .op0, st => some { s with stack := [] :: st }
   | .op1, st => some { s with stack := [1] :: st }
-  | .checksig, k :: sg :: st => some { s with stack := boolBytes (E.sigOK k sg) :: st }
+  | .checksig, k :: sg :: st =>
+    -- a signature that is not empty must verify (BIP342 consensus; NULLFAIL for P2WSH)
+    if E.sigOK k sg then some { s with stack := boolBytes true :: st }
+    else if sg = [] then some { s with stack := boolBytes false :: st }
+    else none
   | .checksigverify, k :: sg :: st => if E.sigOK k sg then some { s with stack := st } else none
   | .verify, v :: st => if castToBool v then some { s with stack := st } else none
   | .swap, a :: b :: st => some { s with stack := b :: a :: st }
@@ -174,5 +178,29 @@ def step (E : EvalEnv) (o : Op) (s : St) : Option St :=
 def exec (E : EvalEnv) : List Op → St → Option St
   | [], s => some s
   | o :: os, s => (step E o s).bind (exec E os)
+
+/-- an op code above OP_16: what BIP141's op count counts (executed or not). -/
+def Op.nonPush : Op → Bool
+  | .push _ | .pushnum _ | .op0 | .op1 => false
+  | _ => true
+
+def countNP (ops : List Op) : Nat := (ops.filter Op.nonPush).length
+
+/-- the limits the interpreter puts around an execution, which `exec` itself does not carry: 201
+    counted op codes and 10 000 bytes of script (P2WSH; the count is exact for scripts without
+    OP_CHECKMULTISIG, whose keys are counted on top), 520 bytes per initial stack element, 1000
+    initial elements.  NOT modelled: the 1000-element bound on the stack DURING execution. -/
+def withinEngineLimits (ctx : Ctx) (ops : List Op) (w : List Bytes) : Bool :=
+  (ctx == .tapscript || (decide (countNP ops ≤ MAX_OPS_PER_SCRIPT) && decide ((ser ops).length ≤ 10000))) &&
+  w.all (fun e => decide (e.length ≤ 520)) && decide (w.length ≤ MAX_STACK_SIZE)
+
+/-- the verdict on a witness program: within the limits, the script runs to its end with every
+    conditional closed, the altstack forgotten, and exactly one element left, which is true
+    (CLEANSTACK is consensus for witness programs). `w` is the initial stack, top first. -/
+def accepts (E : EvalEnv) (ctx : Ctx) (ops : List Op) (w : List Bytes) : Bool :=
+  withinEngineLimits ctx ops w &&
+  match exec E ops ⟨w, [], []⟩ with
+  | some ⟨[v], _, []⟩ => castToBool v
+  | _ => false
 
 end Btc.Miniscript
